@@ -4,11 +4,13 @@ import glob, json, os
 ROOT = os.path.dirname(os.path.dirname(os.path.abspath(__file__)))
 checks = []
 claimed = set()
+CLAIMED = set(json.load(open(os.path.join(ROOT, "tools", "claimed.json"))))
 for f in sorted(glob.glob(os.path.join(ROOT, "props", "*.json"))):
     m = json.load(open(f))
-    if not m.get("claimed", True):
-        continue
     pid = m["id"]
+    # only properties the lead has reviewed, run and committed are claimed
+    if pid not in CLAIMED:
+        continue
     claimed.add(pid)
     checks.append({
         "property_id": pid,
